@@ -120,6 +120,11 @@ var vC03Prefixes = []string{
 	"Wenn wahr, Die Funktion f gibt nichts zurück, macht:\n",
 	"Wenn wahr, Wir nennen die Kombination aus\n",
 	"Solange wahr, Die Zahl x ist",
+	// a forward-declared function whose definition follows in a nested scope or is cut off
+	"Die Funktion foo gibt nichts zurück,\nwird später definiert\nund kann so benutzt werden:\n\t\"foo\"\n\nWenn wahr, dann:\n\tDie Funktion foo macht:\n",
+	"Die Funktion foo gibt nichts zurück,\nwird später definiert\nund kann so benutzt werden:\n\t\"foo\"\n\nDie Funktion foo macht:\n",
+	"Die Funktion foo gibt nichts zurück,\nwird später definiert\nund kann so benutzt werden:\n\t\"foo\"\n\nSolange wahr, Die Funktion foo macht:\n",
+	"Die Funktion foo gibt nichts zurück,\nwird später definiert\nund kann so benutzt werden:\n\t\"foo\"\n\nDie Funktion bar gibt nichts zurück, macht:\n\tDie Funktion foo macht:\n",
 }
 
 // verifC03AfterPrefix: the whole frontend on a concrete opening followed by k tokens of symbolic
